@@ -164,7 +164,15 @@ func runC14(c *Ctx, idx int, o *Obs) {
 			want[kk] /= float64(k)
 			sc = math.Max(sc, want[kk])
 		}
-		mat, tips, err := tree.AvgDistanceMatrix(tree.DISTANCE_METRIC_BRLEN, treesChan(texts))
+		// the identifiers the trees carry are whatever the caller gave them (0..n-1 from a reader; all 0, every other
+		// one, starting at 1 from other sources): the mean is over the trees received
+		idOf := []func(i int) int{func(i int) int { return i }, func(i int) int { return 0 }, func(i int) int { return 2 * i }, func(i int) int { return i + 1 }}[r.Intn(4)]
+		ach := make(chan tree.Trees, len(texts))
+		for i, s := range texts {
+			ach <- tree.Trees{Tree: mustParse(s), Id: idOf(i)}
+		}
+		close(ach)
+		mat, tips, err := tree.AvgDistanceMatrix(tree.DISTANCE_METRIC_BRLEN, ach)
 		o.Ev("AvgDistanceMatrix", 1)
 		if o.Check(err == nil, "avg_error", fmt.Sprint(err), strings.Join(texts, "\n")) {
 			checkMatrix(fmt.Sprintf("average matrix over %d trees", k), mat, tips, want, 1e-12*sc*float64(n))
